@@ -133,11 +133,9 @@ def oracle_all(hist: dict, r: dict, which: set) -> list:
                 if pl and pl[0][0] == "simple" and due.get(i) is not None and t_end // 1000 < due[i] // 1000:
                     bad.append(("waiting_before_due", f"message {i} due at {due[i]} is in the normal queue at {t_end}", where))
         if "C12" in which or "C11" in which:
-            for i, pl in places.items():
-                was = prev_places.get(i)
-                if pl and pl[0][0] == "dead" and was and was[0][0] in ("simple", "delayed") and op in ("consume", "consume_many"):
-                    if expiry.get(i) is None or t_end <= expiry[i]:
-                        bad.append(("live_message_dead_lettered", f"message {i} (expiry {expiry.get(i)}) dead-lettered by a consumer at <= {t_end}", where))
+            for t_d, i in e.get("dead_appends", []):
+                if expiry.get(i) is None or t_d <= expiry[i]:
+                    bad.append(("live_message_dead_lettered", f"message {i} (expiry {expiry.get(i)}) dead-lettered by a consumer at {t_d}", where))
         if "C11" in which and op in ("consume", "consume_many"):
             for i, pl in places.items():
                 if i in prev_msgs and i in msgs and (msgs[i][0], msgs[i][1]) != (prev_msgs[i][0], prev_msgs[i][1]):
@@ -146,7 +144,13 @@ def oracle_all(hist: dict, r: dict, which: set) -> list:
     return bad
 
 
-def run_histories(ctx: Ctx, res: Result, tag: str, hists: list, which: set, rng, generated: bool = True) -> None:
+def default_nontrivial(h: dict, r: dict) -> bool:
+    return any(e["op"] in ("consume", "consume_many") and (e.get("delivered") or e.get("new_held")) for e in r["trace"]) and \
+        any(e["op"] in ("ack", "nack", "reject", "requeue", "finish") for e in r["trace"])
+
+
+def run_histories(ctx: Ctx, res: Result, tag: str, hists: list, which: set, rng, generated: bool = True,
+                  nontrivial=default_nontrivial) -> list:
     outs = []
 
     async def main(loop):
@@ -157,9 +161,7 @@ def run_histories(ctx: Ctx, res: Result, tag: str, hists: list, which: set, rng,
     run_virtual(main)
     cases = []
     for h, r in zip(hists, outs):
-        nontrivial = any(e["op"] in ("consume", "consume_many") and (e.get("delivered") or e.get("new_held")) for e in r["trace"]) and \
-            any(e["op"] in ("ack", "nack", "reject", "requeue", "finish") for e in r["trace"])
-        res.add_case(r["term"], nontrivial)
+        res.add_case(r["term"], bool(nontrivial(h, r)))
         for e in r["trace"]:
             res.count("op:" + e["op"])
             if e.get("cancelled"):
@@ -179,6 +181,9 @@ def run_histories(ctx: Ctx, res: Result, tag: str, hists: list, which: set, rng,
                                "impl_obs": cases[i][1][:400], "model_obs": (mo.get(i) or [])[:400]})
     res.model_cases += len(cases)
     res.traces_validated += len(cases) - len(bad)
+    res.count("model_ops", sum(r["n_model_ops"] for r in outs))
+    res.count("idle_polls_merged", sum(r["mw"].n_compressed for r in outs))
+    return outs
 
 
 def strip(h: dict) -> dict:
@@ -191,7 +196,7 @@ def unstrip(h: dict) -> dict:
             "known": {int(k): tuple(v) for k, v in h.get("known", {}).items()}}
 
 
-def replay_history(ctx: Ctx, rp: dict, which: set) -> dict:
+def replay_history(ctx: Ctx, rp: dict, which: set, extra=None) -> dict:
     case = rp.get("case") or rp["first_diverging_case"]["case"]
     h = unstrip(case["history"] if "history" in case else case)
     rng = ctx.rng("replay")
@@ -201,6 +206,8 @@ def replay_history(ctx: Ctx, rp: dict, which: set) -> dict:
         loop.set_exception_handler(lambda l, c: None)
         r = await memrun.run_generated(h, loop, rng)
         o = oracle_all(h, r, which)
+        if extra is not None:
+            o = o + extra(h, r)
         out.update({"oracle": [(k, w) for k, w, _ in o][:10], "n_ops": len(r["trace"])})
 
     run_virtual(main)
